@@ -12,6 +12,8 @@ from vf.core import Ctx
 def disc(sc: dict, tr: dict, clause: str, pos: int) -> str:
     evs = tr['events']
     t = evs[pos - 1]['t'] if 0 < pos <= len(evs) else 0
+    if '-d22-' in str(sc.get('id')):
+        return 'own-aaaa-on-ipv6-socket'        # the directed histories of finding D22 (respfam.d22_scenarios)
     if clause.startswith('C12_'):
         # the rejected send follows the assembly of a truncated (TC) query by less than 1.3 s
         for e in evs[:pos]:
